@@ -224,6 +224,39 @@ def _sparse_case(sh, cI, sf, tern, shp, collect=False):
     if nw != n_want or not np.array_equal(O.canon_labels(lw), want):
         if not sh.violations:
             sh.violation("sparseframe.sparse_connected_pixels:partition", case, {"labels": lw, "n": nw})
+    # 5. histories on the labelled frame object: each later labelling is that of the pixels it is given, whatever was labelled before
+    #    (a) a sub-frame cut out with mask() (the middle column dropped) labelled at the same threshold,
+    #    (b) another pixel array of the same frame (above and below exchanged) labelled into the same label name,
+    #    (c) one above-threshold pixel lowered in place, labelled again
+    if not sh.violations and mask.any():
+        def expect(m2, rows, cols):
+            w_, n_ = O.scipy_components(m2, True)
+            return O.canon_labels(w_[rows, cols]), n_
+        keep = jj != shp[1] // 2
+        if keep.any() and not keep.all():
+            sub = fr.mask(keep)
+            ns = sf.sparse_connected_pixels(sub, threshold=thr)
+            m2 = mask.copy(); m2[:, shp[1] // 2] = False
+            wl, wn = expect(m2, ii[keep], jj[keep])
+            if ns != wn or not np.array_equal(O.canon_labels(sub.pixels["connectedpixels"]), wl):
+                sh.violation("sparseframe.sparse_connected_pixels[history: label, mask(), label the sub-frame]:partition", case,
+                             {"labels": sub.pixels["connectedpixels"], "n": ns, "expected_n": wn})
+        other = np.where(v > thr, 1.0, 2.0).astype(np.float32)
+        fr.set_pixels("other", other)
+        no = sf.sparse_connected_pixels(fr, data_name="other", threshold=thr)
+        wl, wn = expect(listed & ~mask, ii, jj)
+        if no != wn or not np.array_equal(O.canon_labels(fr.pixels["connectedpixels"]), wl):
+            sh.violation("sparseframe.sparse_connected_pixels[history: label, label another pixel array]:partition", case,
+                         {"labels": fr.pixels["connectedpixels"], "n": no, "expected_n": wn})
+        k0 = int(np.nonzero(v > thr)[0][0])
+        fr.pixels["intensity"][k0] = 1.0
+        nc = sf.sparse_connected_pixels(fr, threshold=thr)
+        m3 = mask.copy(); m3[ii[k0], jj[k0]] = False
+        wl, wn = expect(m3, ii, jj)
+        if nc != wn or not np.array_equal(O.canon_labels(fr.pixels["connectedpixels"]), wl):
+            sh.violation("sparseframe.sparse_connected_pixels[history: label, pixel lowered in place, label]:partition", case,
+                         {"labels": fr.pixels["connectedpixels"], "n": nc, "expected_n": wn})
+        v[k0] = 2.0 if fr.pixels["intensity"] is v else v[k0]
     sh.evaluations += 1
     seeds = O.n_seeds(mask, True)
     if n_want >= 2 or seeds > n_want:
